@@ -171,6 +171,9 @@ def run(rep, tier, root=None):
     k = ix.func(WFS, "make_subaps_2d")
     rep.functions_analysed.add(k.fq)
     scatter_order(rep, k)
+    from ..common import purity_obligations
+    purity_obligations(rep, ix, [ix.func(PUP, "circle")] + [ix.func(WFS, n) for n in ("findActiveSubaps", "computeFillFactor", "make_subaps_2d")],
+                       "M5.pure", "the mask / sub-aperture set returned would depend on earlier calls, not only on the arguments")
     rep.floor("C14 obligations", len(rep.obligations), 14)
 
 
